@@ -18,6 +18,7 @@ def P(qr, qw, tr, tw, **kw):
 PLAN = {
     "C01": P(6000, 75, 200000, 900),
     "C02": P(5000, 75, 150000, 900),
+    "C16": P(2500, 90, 60000, 900),
     "C19": P(2500, 90, 60000, 900),
     "C13": P(800, 110, 20000, 1500, chunk=60, watchdog_s=120),
     "C14": P(800, 110, 20000, 1500, chunk=60, watchdog_s=120),
@@ -33,6 +34,11 @@ PLAN = {
 }
 
 LEVELS = {
+    "C16": {"level": "exploration", "rule": RULE,
+            "text": "(a) seeded histories of Put (overwrite / create-if-absent) / Get / GetAt / Has / GetAttr / Delete / Keys / KeysPrefix (every page size, following next, also after abandoning a pagination half-way) over hierarchical keys whose components are prefixes of one another, on MemMapFs and on a real temporary directory, checked step by step against a map model whose listing is exact-prefix, delimiter roll-up, lexicographic, each item once; (b) 2..4 writers creating the same key with create-if-absent through simfs, where every afero call (mkdir, open O_EXCL, write, close) of every writer is a scheduling point and the back-off runs on the simulated clock: exactly one wins and the key holds its bytes",
+            "note": "keys are generated so that no key is a directory prefix of another (a file system cannot hold both); Keys() order is not asserted",
+            "components": {"real": ["pkg/storage/localfs", "afero MemMapFs / OsFs (kernel O_EXCL)"], "stub": ["simfs scheduling wrapper", "clock: testing/synctest"]},
+            "assumptions": []},
     "C19": {"level": "exploration", "rule": RULE,
             "text": "1..4 appender clients add entries (empty, multi-line, YAML-looking, >1 KiB payloads) under sampled interleavings of their Touch / GetAttr / Put triplets, with call latencies up to 0.7 s and pauses so that appends fall into different seconds; oracle: tokens are unique KSUIDs, an append that returned in an earlier second than another was invoked has the smaller token, the stored entry holds the payload unchanged, ListTokens from issued and synthetic tokens with max 1..1000 returns exactly the look-back window in token order. Reading entries back through ListEntries is a recorded finding (reproduced by a directed scenario)",
             "note": "simstore's KeysPrefix honours a start key (the contract pkg/wal is written against); the log is driven as a library (nothing in datamon calls it)",
